@@ -157,6 +157,15 @@ fn tr_reftype(e: &syn::Expr) -> (String, String) {
             }
             match (n, h) { (Some(n), Some(h)) => (n, h), _ => sc("RefType needs nullable and heap_type", e) }
         }
+        // wasmparser's constants: RefType::FUNC / EXTERN are the non-nullable (ref func) / (ref extern),
+        // RefType::FUNCREF = FUNC.nullable() and RefType::EXTERNREF = EXTERN.nullable()
+        syn::Expr::Path(p) if seg_before_last(&p.path) == "RefType" => match last_seg(&p.path).as_str() {
+            "FUNC" => ("false".into(), "(HAbs false AFunc)".into()),
+            "EXTERN" => ("false".into(), "(HAbs false AExtern)".into()),
+            "FUNCREF" => ("true".into(), "(HAbs false AFunc)".into()),
+            "EXTERNREF" => ("true".into(), "(HAbs false AExtern)".into()),
+            _ => sc("RefType constant", e),
+        },
         // RefType::new(nullable, heap).unwrap()
         syn::Expr::MethodCall(m) if m.method == "unwrap" => match &*m.receiver {
             syn::Expr::Call(c) => match &*c.func {
